@@ -18,7 +18,19 @@ PROGRAMS = {
     "typeerr": 'x := 1 + "a"\n',
     "batcherr": 'x := 1\nswitch x {\ncase 1:\n\tbreak\n}\n',      # accepted for bash, conversion error for batch
 }
-NAMES = ["prog.tsh", "a.b.c.tsh", "noext", "my prog.tsh", ".hidden", "x.sh", "deep/er/p.tsh", "x.bat"]
+NAMES = ["prog.tsh", "a.b.c.tsh", "noext", "my prog.tsh", ".hidden", "x.sh", "deep/er/p.tsh", "x.bat",
+         # stems that end in a character of their own extension, repeated extensions, one-letter names (round 5: C19-6)
+         "tests.tsh", "s.tsh", "greet.tsh", "h.tsh", "t.t", "ss.s", "x.tsh.tsh", "a..tsh", "tsh", "tsh.tsh", "sh.sh", "deep/er/tst.tsh"]
+
+
+def rand_name(rng):
+    """a file name over an alphabet that contains the characters of the usual extensions"""
+    while True:
+        stem = "".join(rng.choice("tshab. x-T") for _ in range(rng.randint(0, 5)))
+        ext = rng.choice([".tsh", ".tsh", ".tsh", ".t", ".sh", ".txt", "", ".TSH", ".h", ".bat", ".s"])
+        name = stem + ext
+        if name and name not in (".", "..", "out", "out2", "nodir", "nothere.tsh") and not name.startswith("-"):
+            return name
 
 
 def snapshot(root):
@@ -35,7 +47,7 @@ def snapshot(root):
 def gen_cases(rng, n):
     cases = []
     for _ in range(n):
-        name = rng.choice(NAMES)
+        name = rng.choice(NAMES) if rng.random() < 0.6 else rand_name(rng)
         prog = rng.choice(list(PROGRAMS))
         out = rng.choice(["out", ".", "out", "out/", "./out", "out2/sub", "{ABS}", "{ABS}/out", "{ABS}/./out/", "out/../out", "./out/.", "out2/../."])
         targets = rng.choice([["bash"], ["batch"], ["bash", "batch"], ["batch", "bash"], ["bash", "bash"], ["bash", "batch", "bash"], ["batch", "batch"]])
